@@ -660,7 +660,10 @@ def chk_encode(G, args):
     except Exception as exc:  # noqa: BLE001
         return (f'encode({m}) gives elements usable in the group operation', f'{type(exc).__name__}: {exc}')
     if not ok:
-        return (f'(M @ Z) @ ~Z == M for M, Z = encode({m})', f'{G.enc(s)}')
+        res = (f'(M @ Z) @ ~Z == M and M @ Z valid for M, Z = encode({m})', f'{G.enc(s)}')
+        if isinstance(G, HcG) and G.cl:
+            res += ('C27-hc-cl-encode-not-in-jacobian',)
+        return res
     if len(args) > 1 and isinstance(G, EcG):  # decode must not depend on the representation
         rng = random.Random(int(args[1]))
         if rng is not None:
@@ -669,6 +672,20 @@ def chk_encode(G, args):
             d2 = G.cls.decode(M2, Z2)
             if int(d2) != m:
                 return (f'decode(encode({m})) == {m} for rescaled representatives', f'{d2}')
+
+
+def chk_encode_rt(G, args):
+    """decode(encode(m)) == m only (used where the encoded elements are a known finding)."""
+    m = int(args[0])
+    try:
+        M, Z = G.cls.encode(m)
+    except ValueError as exc:
+        if 'encoding failed' in str(exc):
+            return None
+        raise
+    d = G.cls.decode(M, Z)
+    if int(d) != m:
+        return (f'decode(encode({m})) == {m}', f'{d}')
 
 
 def chk_cross(G, args):
@@ -709,7 +726,7 @@ def chk_jacobian_count(G, args):
 
 
 CHECKS = {f.__name__[4:]: f for f in (chk_assoc, chk_ident_inv, chk_comm, chk_closure, chk_vs_oracle,
-                                      chk_repeat, chk_order, chk_elt_order, chk_encode, chk_cross,
+                                      chk_repeat, chk_order, chk_elt_order, chk_encode, chk_encode_rt, chk_cross,
                                       chk_equality, chk_class_number, chk_jacobian_count)}
 
 
@@ -1071,8 +1088,18 @@ def explore_hc(ctx):
         run_check(ctx, G, 'order', ['prime'] if spec.get('curvename') else [])
         if G.p > 1000:
             top = G.p // G.cls.gap - 1
-            for m in [0, 1, top] + [rng.randrange(0, top) for _ in range(ctx.scale(2, 10))]:
-                run_check(ctx, G, 'encode', [m])
+            ms = [0, 1, top, min(top, (1 << 53) + 1)] + [rng.randrange(0, top) for _ in range(ctx.scale(2, 10))]
+            if G.cl:
+                # known finding C27-hc-cl-encode-not-in-jacobian: Costello-Lauter encode returns (u, v) with
+                # u = (x + x_m)^2 and constant v, not a Jacobian element; reported on ONE directed input,
+                # the round trip itself is checked on all m, the group laws on generator multiples only
+                for m in ms:
+                    run_check(ctx, G, 'encode_rt', [m])
+                if spec.get('curvename') == 'kummer1271':
+                    run_check(ctx, G, 'encode', [5])
+            else:
+                for m in ms:
+                    run_check(ctx, G, 'encode', [m])
 
 
 def explore_cl(ctx):
